@@ -222,6 +222,8 @@ class Shims:
                 self.max_queued = 0
                 self.max_inflight = 0
                 shims.executors.append(self)
+                if s.current is not None and not s.aborted:
+                    s.point(('executor-create', self.name))      # building a thread pool takes time
 
             def submit(self, fn, *args, **kwargs):
                 if self.shut:
